@@ -18,5 +18,5 @@ struct nng_msg {
 	int    id;  /* allocation sequence number (monitor use) */
 	int    tag; /* set by harnesses, copied by dup (monitor use) */
 };
-extern int env_msg_live, env_msg_allocs, env_msg_seq;
+extern int env_msg_live, env_msg_allocs, env_msg_seq, env_msg_fail_at, env_msg_failed;
 #endif
